@@ -151,7 +151,7 @@ pub fn run(tier: Tier) -> Report {
         .enumerate()
         .flat_map_iter(|(i, it)| {
             let pr = print_program(&it.program);
-            let nvar = if it.family == "scenario-permutations" { 7 } else { 1 + (i % 3 == 0) as usize };
+            let nvar = if (it.family == "scenario-permutations" || progs::always_included(it.family)) { 7 } else { 1 + (i % 3 == 0) as usize };
             let mut out = vec![];
             let vars = doc_variants(&pr, 6);
             for k in 0..nvar {
